@@ -21,6 +21,14 @@
 (*           tracer of the SOURCE machine saw, results of the real look-ups   *)
 (*   import  a client before export and after import into a fresh debugger    *)
 (*   lookup  function-level: the real look-ups over a generated record list   *)
+(*   txseq   function-level: one server.Client whose store GROWS: steps        *)
+(*           grow / TxIndex(id) / ClearCache / TxAtQueueTick / TxAtMachTime     *)
+(*           with the real answers; ids are asked before their record is        *)
+(*           appended, afterwards, and again                                    *)
+(* a cmd with op "scrollid" is a jump by transition id (ScrollToTx{TxId}); the  *)
+(* id may belong to a record that has not been ingested yet; the line carries   *)
+(* what Client.TxIndex answers right after the command, and whether the         *)
+(* ScrollToTx handler ran (a refused jump is judged by that answer alone)        *)
 EXTENDS Debugger, Json
 
 CONSTANT TraceFile
@@ -38,7 +46,8 @@ SumsOf(parsed) == [i \in 1..Len(parsed) |-> parsed[i].sum]
 
 NoCtx == [sch |-> [n |-> 0, err |-> {}, health |-> {}], recs |-> <<>>, diffs |-> <<>>,
           v |-> [cursor |-> 0, tail |-> FALSE, F |-> {}, filtered |-> <<>>],
-          last |-> [op |-> "none"]]
+          last |-> [op |-> "none"],
+          txc |-> {}]   \* the specification's copy of the client's txCache
 
 B(cond, name) == IF cond THEN {} ELSE {name}
 
@@ -118,12 +127,14 @@ EvIngest(x) ==
                     B(sv.filtered = lv.filtered, "ingest.filtered"),
                     B(sv.F = lv.F /\ sv.tail = lv.tail, "ingest.flags")},
        v |-> UNION {B(DerivedConsistent(sch, x.recs, x.parsed, x.errors), "DerivedConsistent"),
-                    B(Selects("ingest", ctx.v, lv) => FilterSound(lv, sch, x.recs, diffs), "FilterSound")},
+                    B(Selects("ingest", ctx.v, lv) => FilterSound(lv, sch, x.recs, diffs), "FilterSound"),
+                    B(FilteredSoundPrefix(lv, sch, x.recs, diffs), "FilteredSound")},
        c |-> [ctx EXCEPT !.recs = x.recs, !.diffs = diffs, !.v = lv, !.last = [op |-> "none"]],
        k |-> "ingest"]
 
 CmdEnabledT(c, w, n) ==
   CASE c.op = "fwd" -> FwdEnabled(w, n, c.k)
+    [] c.op = "scrollid" -> TRUE
     [] c.op = "back" -> BackEnabled(w, n, c.k)
     [] c.op = "scroll" -> ScrollEnabled(w, n, c.k)
     [] OTHER -> TRUE
@@ -142,8 +153,14 @@ EvCmd(x) ==
       diffs == ctx.diffs
       n == Len(recs)
       lv == ViewOf(x.view)
+      byid == c.op = "scrollid"
+      ids == Field(recs, "id")
+      jump == IF byid THEN DoScrollId(ctx.v, n, ctx.txc, ids, c.id)
+              ELSE [v |-> ctx.v, cache |-> ctx.txc, res |-> -1]
+      \* the driver asks Client.TxIndex once more after the command (x.txidx)
+      probe == IF byid THEN CodeTxIndex(jump.cache, ids, c.id) ELSE [res |-> -1, cache |-> ctx.txc]
       en == CmdEnabledT(c, ctx.v, n)
-      sv == IF en THEN CmdApplyT(c, ctx.v, sch, recs, diffs) ELSE ctx.v
+      sv == IF byid THEN jump.v ELSE IF en THEN CmdApplyT(c, ctx.v, sch, recs, diffs) ELSE ctx.v
       (* FwdBackIdentity on two consecutive logged commands *)
       fb == (ctx.last.op = "fwd" /\ c.op = "back" /\ c.k = ctx.last.k /\ ctx.last.shown
              /\ ctx.last.to # ctx.last.from /\ (c.k = 1 \/ ~CodeFiltersActive(ctx.v.F)))
@@ -156,11 +173,21 @@ EvCmd(x) ==
                     B(sv.cursor = lv.cursor, "cmd.cursor." \o c.op),
                     B(sv.filtered = lv.filtered, "cmd.filtered." \o c.op),
                     B(sv.F = lv.F, "cmd.filters." \o c.op),
-                    B(sv.tail = lv.tail, "cmd.tail." \o c.op)},
+                    B(sv.tail = lv.tail, "cmd.tail." \o c.op),
+                    B(~byid \/ x.txidx = probe.res, "cmd.txindex")},
        v |-> UNION {B(Selects(c.op, ctx.v, lv) => FilterSound(lv, sch, recs, diffs), "FilterSound"),
                     B(lv.cursor \in 0..n, "CursorRange"),
-                    B(fb, "FwdBackIdentity")},
-       c |-> [ctx EXCEPT !.v = lv, !.last = last],
+                    B(fb, "FwdBackIdentity"),
+                    \* what the filtered view lists matches the filters: judged on all the records
+                    \* right after a re-filter (a toggle that took effect: the filter states
+                    \* changed), on the records up to the listed one at any time
+                    B(IF c.op = "toggle" /\ lv.F # ctx.v.F THEN FilteredSound(lv, sch, recs, diffs)
+                      ELSE FilteredSoundPrefix(lv, sch, recs, diffs), "FilteredSound"),
+                    \* the look-up by transition id answers what a scan over the records held
+                    \* NOW answers, and the jump shows that transition
+                    B(~byid \/ x.txidx = ScanTxIndex(ids, c.id), "LookupEqualsScan.txid"),
+                    B(~byid \/ ~x.ran \/ JumpLands(lv, ids, c.id), "LookupEqualsScan.txid")},
+       c |-> [ctx EXCEPT !.v = lv, !.last = last, !.txc = probe.cache],
        k |-> IF ctx.last.op = "fwd" /\ c.op = "back" /\ ctx.last.to # ctx.last.from THEN "fwdback" ELSE "cmd"]
 
 EvFinal(x) ==
@@ -209,6 +236,37 @@ EvLookup(x) ==
        c |-> ctx,
        k |-> IF mono.qt /\ mono.sum /\ mono.ht /\ mono.err THEN "lookup" ELSE "lookup.nonmono"]
 
+(* ----- a growing store at function level ----- *)
+(* steps: <<0, n, 0>> grow to n records; <<1, key, res>> TxIndex(keys[key+1]);   *)
+(* <<2, 0, 0>> ClearCache; <<3, q, res>> TxAtQueueTick(q); <<4, s, res>>          *)
+(* TxAtMachTime(s)                                                               *)
+LenAt(steps, j) == Max({0} \cup {steps[i][2] : i \in {k \in 1..(j - 1) : steps[k][1] = 0}})
+RECURSIVE TxSeqDrift(_, _, _, _, _)
+TxSeqDrift(x, j, cache, n, acc) ==
+  IF j > Len(x.steps) THEN acc
+  ELSE LET st == x.steps[j]
+       IN  CASE st[1] = 0 -> TxSeqDrift(x, j + 1, cache, st[2], acc)
+             [] st[1] = 2 -> TxSeqDrift(x, j + 1, {}, n, acc)
+             [] st[1] = 1 ->
+                  LET r == CodeTxIndex(cache, SubSeq(x.ids, 1, n), x.keys[st[2] + 1])
+                  IN  TxSeqDrift(x, j + 1, r.cache, n, IF r.res = st[3] THEN acc ELSE acc \cup {j})
+             [] OTHER -> TxSeqDrift(x, j + 1, cache, n, acc)
+EvTxSeq(x) ==
+  LET S == x.steps
+      at(j) == LenAt(S, j)
+      iv == \A j \in 1..Len(S) :
+               S[j][1] = 1 => S[j][3] = ScanTxIndex(SubSeq(x.ids, 1, at(j)), x.keys[S[j][2] + 1])
+      qv == \A j \in 1..Len(S) :
+               S[j][1] = 3 => S[j][3] = ScanTxAtQueueTick(SubSeq(x.qts, 1, at(j)), S[j][2])
+      mv == \A j \in 1..Len(S) :
+               S[j][1] = 4 => S[j][3] = ScanTxAtMachTime(SubSeq(x.sums, 1, at(j)), S[j][2])
+  IN  [d |-> UNION {B(TxSeqDrift(x, 1, {}, 0, {}) = {}, "txseq.txindex"),
+                    B(NoDup(x.ids) /\ Monotone(x.qts) /\ Monotone(x.sums), "txseq.generator")},
+       v |-> UNION {B(iv, "LookupEqualsScan.txid"),
+                    B(qv, "LookupEqualsScan.queuetick"),
+                    B(mv, "LookupEqualsScan.machtime")},
+       c |-> ctx, k |-> "txseq"]
+
 (* a handler of the debugger machine panicked (Exception) or its queue never  *)
 (* came to rest during this command: nothing else on the line is meaningful   *)
 EvBroken(x) == [d |-> {}, v |-> {"NoPanic"}, c |-> ctx, k |-> "broken"]
@@ -221,8 +279,10 @@ Eval(x) ==
     [] x.ev = "final" -> EvFinal(x)
     [] x.ev = "import" -> EvImport(x)
     [] x.ev = "lookup" -> EvLookup(x)
+    [] x.ev = "txseq" -> EvTxSeq(x)
 
-Kinds == {"open", "ingest", "cmd", "fwdback", "final", "import", "lookup", "lookup.nonmono", "broken"}
+Kinds == {"open", "ingest", "cmd", "fwdback", "final", "import", "lookup", "lookup.nonmono", "broken",
+          "txseq"}
 
 TraceInit ==
   /\ l = 1 /\ viol = {} /\ drift = {} /\ ctx = NoCtx
